@@ -163,11 +163,13 @@ def scenarioCase (args : List String) (impl : String) : Verdict :=
           | .D cn peer d =>
             (match readers cn with
              | [i] =>
-               if s.connClosed.getD cn 0 == 0 then
-                 (match step md5 cfg s (.serveRecv i peer d) with
-                  | some s' => go { is with st := s' } rest itoks.tail (dgrams ++ [(i, peer, d)]) ("D=asked" :: acc)
-                  | none => next is "D=noop")
-               else next is "D=noop"
+               -- a datagram fed after the conn was closed, to a Serve call that has not seen the closed conn yet, is one
+               -- its `ReadFrom` had taken before the Close: `serveRead` before, `serveSpawn` after (RV.Model.Server2;
+               -- `serveSpawn` has no guard, it is `spawn`) - the code tests nothing between the read and the `go`
+               (match (if s.connClosed.getD cn 0 == 0 then step md5 cfg s (.serveRecv i peer d)
+                       else some (spawn md5 cfg s i peer d)) with
+                | some s' => go { is with st := s' } rest itoks.tail (dgrams ++ [(i, peer, d)]) ("D=asked" :: acc)
+                | none => next is "D=noop")
              | _ => next is "D=noop")
           | .d t =>
             (match s.tasks[t]? with
